@@ -142,6 +142,7 @@ type taskState struct {
 	data   map[string]interface{}
 	log    *hostLog
 	out    []string
+	noMap  bool
 }
 
 func sharedDoOp(ctx context.Context, ts *taskState, op sharedOp, trees []*formula.SourceCode, others []string) (res string) {
@@ -150,6 +151,14 @@ func sharedDoOp(ctx context.Context, ts *taskState, op sharedOp, trees []*formul
 			res = panicOutcome(p)
 		}
 	}()
+	if ts.runner == nil {
+		// every goroutine makes its own runner, as its first step: the very first use of the
+		// package in a process may well happen on several goroutines at once
+		ts.runner = formula.NewRunner()
+		if !ts.noMap {
+			ts.runner.SetThis(ts.data)
+		}
+	}
 	switch op.Kind {
 	case opEval:
 		n0 := len(ts.log.calls)
@@ -295,10 +304,7 @@ func runShared(rc *RunCtx) {
 		var sts []*taskState
 		for t := 0; t < nt; t++ {
 			lg := &hostLog{}
-			ts := &taskState{runner: formula.NewRunner(), log: lg, data: sc.Specs[t].build(lg, loc)}
-			if !sc.Specs[t].NoMap {
-				ts.runner.SetThis(ts.data)
-			}
+			ts := &taskState{log: lg, data: sc.Specs[t].build(lg, loc), noMap: sc.Specs[t].NoMap}
 			ts.out = make([]string, 0, len(sc.Scripts[t]))
 			sts = append(sts, ts)
 		}
